@@ -4,6 +4,7 @@ package c09
 import (
 	"bytes"
 	"context"
+	"errors"
 	"fmt"
 	"io"
 	"os"
@@ -582,5 +583,119 @@ func TestTimeLapse(t *testing.T) {
 			}
 			vlib.Case("TestTimeLapse", fmt.Sprintf("%s-%v", format, privacy), "time-lapse")
 		}
+	}
+}
+
+// TestGrowthBoundaries: "how internal buffers were recycled" includes whether the record is printed into a
+// buffer that is large enough already or into one that has to grow while the record is written. The same call is
+// made twice in a row: first by a context made afresh (vlib.FreshContexts), then by the warm one it left behind.
+// Padding attributes move the byte at which the fresh buffer must grow across every byte of the record's own
+// fields; optionally one attribute is a marshaller that has consumed bytes of the encoder before (the growth then
+// drops them from the front of the buffer and every position remembered before it moves).
+func TestGrowthBoundaries(t *testing.T) {
+	rapid.Check(t, func(t *rapid.T) {
+		defer vlib.Canon()()
+		_ = slog.RegisterLevel(custColoured, "notice", slog.RegWithColor(color.FgWhite, color.BgUnderline), slog.RegWithTreatedAsLevel(slog.InfoLevel))
+		format := rapid.SampledFrom([]string{"color", "logfmt", "json"}).Draw(t, "format")
+		sev := rapid.SampledFrom([]slog.Level{slog.InfoLevel, slog.ErrorLevel, slog.DebugLevel, custColoured, custRaw}).Draw(t, "severity")
+		ts := vlib.GenTime().Draw(t, "ts")
+		msg := rapid.OneOf(rapid.StringMatching(`[a-z ]{1,20}`), rapid.StringMatching(`[a-z ]{1,10}\n[a-z ]{1,10}\n?`)).Draw(t, "msg")
+		strs := rapid.OneOf(vlib.GenPlainString(), rapid.StringMatching(`[a-z "\\=\n\x1b]{0,24}`))
+		keys := rapid.OneOf(rapid.StringMatching(`[a-e]{1,2}`), rapid.StringMatching(`[c-z]{1,4}`), rapid.SampledFrom([]string{"time", "error", "zz"}))
+		attrs := vlib.GenAttrs(t, vlib.AttrGen{Keys: keys, Vals: vlib.GenValue(strs), MaxDepth: 2, MaxLen: 5}, 0)
+		reads := rapid.SampledFrom([]int{0, 0, 1, 5, 12, 40, 400}).Draw(t, "consumedBytes")
+		// every other case carries one attribute of each kind the encoder prints with code of its own (after the
+		// consuming marshaller in sorted order), so that the growth point visits every byte of every kind
+		allKinds := rapid.Bool().Draw(t, "oneAttributeOfEveryKind")
+		caller := rapid.Bool().Draw(t, "caller")
+		flags := vlib.BaseFlags
+		if caller {
+			flags |= slog.Lcaller
+		}
+		slog.SetFlags(flags)
+
+		log := vlib.NewEventLog()
+		w := vlib.NewRec(log, 1, 0)
+		var lg slog.Logger = slog.New("growth")
+		configure(lg, format)
+		lg.SetWriter(w).SetErrorWriter(w).SetLevel(slog.AlwaysLevel)
+		emit := func(k, d int) (out []byte, panicked any) {
+			defer func() { panicked = recover() }()
+			as := vlib.AttrsOf(attrs)
+			if reads > 0 {
+				as = append(as, slog.NewAttr("rd", vlib.Consumer{N: reads}))
+			}
+			if allKinds {
+				if reads > 0 {
+					as = append(as, slog.NewAttr("ka", vlib.Consumer{N: reads}))
+				}
+				as = append(as, everyKind(ts)...)
+			}
+			as = append(as, vlib.GrowthPads(k, d)...)
+			before := log.Len()
+			lg.(slog.LogSlogAware).WriteThru(context.Background(), sev, ts, fixedPC, msg, as)
+			if evs := log.Snapshot()[before:]; len(evs) == 1 {
+				out = evs[0].Payload
+			}
+			return out, nil
+		}
+		base, p0 := emit(0, 0)
+		one, p1 := emit(1, 0)
+		if p0 != nil || p1 != nil {
+			t.Fatalf("C09 growth (format=%s): the record cannot be printed at all: %v %v", format, p0, p1)
+		}
+		sweep := vlib.GrowthSweep(len(base), len(one)-len(base))
+		for _, kd := range sweep {
+			vlib.FreshContexts()
+			fresh, pf := emit(kd[0], kd[1])
+			warm, pw := emit(kd[0], kd[1])
+			if pf != nil || pw != nil {
+				vlib.Discrep(t, "C09/growth-panic", "C09 growth (format=%s, %d padding attributes, %d digits, marshaller consumed %d bytes): the call panics when the record is printed by a %s context: %v\n  record without padding: %q",
+					format, kd[0], kd[1], reads, map[bool]string{true: "fresh", false: "warm"}[pf != nil], map[bool]any{true: pf, false: pw}[pf != nil], base)
+				continue
+			}
+			if string(fresh) != string(warm) {
+				vlib.Discrep(t, "C09/growth-dependent", "C09 growth (format=%s, %d padding attributes, %d digits, marshaller consumed %d bytes): the same call gives other bytes when its buffer has to grow while the record is written:\n  fresh %q\n  warm  %q",
+					format, kd[0], kd[1], reads, fresh, warm)
+			}
+		}
+		vlib.ExtraAdd("growth_emissions", int64(2*len(sweep)))
+		nontriv := ""
+		if reads > 0 {
+			nontriv = fmt.Sprintf("%s/%d/%d/%d/%v", format, reads, len(base)/16, len(attrs), allKinds)
+		}
+		vlib.Case("TestGrowthBoundaries", nontriv, "growth/"+format, fmt.Sprintf("consumed=%d", reads), fmt.Sprintf("everyKind=%v", allKinds))
+		if vlib.WantSample("growth/" + format) {
+			vlib.Sample("growth/"+format, map[string]any{"record": vlib.Short(string(base)), "consumed": reads, "paddings": len(sweep)})
+		}
+	})
+}
+
+// everyKind is one attribute of every kind of value the encoder has code of its own for (keys kc… to kz…).
+func everyKind(ts time.Time) []slog.Attr {
+	return []slog.Attr{
+		slog.NewAttr("kc064", complex64(complex(0.1, -0.1))),
+		slog.NewAttr("kc128", complex(1.5, 2)),
+		slog.NewAttr("kcs064", []complex64{complex(1, -2), complex(3, 4)}),
+		slog.NewAttr("kcs128", []complex128{complex(1, -2), complex(-3, 4), complex(0, -0.25)}),
+		slog.NewAttr("kdur", 1500*time.Millisecond),
+		slog.NewAttr("kdurs", []time.Duration{time.Second, -3 * time.Microsecond}),
+		slog.NewAttr("kerr", errors.New("boom \"quoted\"")),
+		slog.NewAttr("kf32", float32(0.1)),
+		slog.NewAttr("kf64", -2.5e-7),
+		slog.NewAttr("kfs", []float64{0.5, -1e21}),
+		slog.NewGroupedAttr("kg", slog.NewAttr("x", complex(0, -1)), slog.NewAttr("y", "in a group"), slog.NewGroupedAttr("h", slog.NewAttr("z", int8(-7)))),
+		slog.NewAttr("kint", -42),
+		slog.NewAttr("kints", []int{1, -2, 3}),
+		slog.NewAttr("kmap", map[string]int{"a": 1}),
+		slog.NewAttr("knil", nil),
+		slog.NewAttr("kstr", "needs \"quotes\"\nand a second line"),
+		slog.NewAttr("kstringer", vlib.Str{S: "str"}),
+		slog.NewAttr("kstrs", []string{"a b", "c"}),
+		slog.NewAttr("ktime", ts),
+		slog.NewAttr("ktimes", []time.Time{ts, ts.Add(time.Hour)}),
+		slog.NewAttr("ku8s", []byte("bytes")),
+		slog.NewAttr("kuint", uint64(1<<63)),
+		slog.NewAttr("kbool", true),
 	}
 }
